@@ -137,7 +137,7 @@ Proof.
     pose proof (mark_stale_managed (Z.max (acct st / 20) (acct st - limit st)) st I) as M.
     destruct (mark_stale (Z.max (acct st / 20) (acct st - limit st)) st) as [st1 n]. simpl in M.
     apply (inv_managed_same st1); auto.
-  - inversion H; subst. apply (inv_managed_same st); auto.
+  - rewrite clean_cache_v_repaired in H. inversion H; subst. apply (inv_managed_same st); auto.
   - inversion H; subst. apply (inv_managed_same st); auto.
   - (* RelCollect *) inversion H; subst. unfold rel_collect. destruct I as [L D P].
     destruct (released_idx (caches st) (buckets st) 0) as [|i0 td0] eqn:E.
